@@ -281,15 +281,58 @@ thread_local! {
     static IN_PROBE: std::cell::Cell<bool> = const { std::cell::Cell::new(false) };
 }
 
+thread_local! {
+    static LAST_PANIC: std::cell::RefCell<Option<(String, String)>> = const { std::cell::RefCell::new(None) };
+}
+
 /// Installs a panic hook that stays silent while a `probe` is running (panics of the code under
-/// test are verdict material, not noise) and prints everything else (harness bugs).
+/// test are verdict material, not noise), remembers where the last panic happened, and prints
+/// everything else (harness bugs).
 pub fn quiet_panics_inside_probes() {
-    let default = std::panic::take_hook();
-    std::panic::set_hook(Box::new(move |info| {
-        if !IN_PROBE.with(|p| p.get()) {
-            default(info);
+    static ONCE: std::sync::Once = std::sync::Once::new();
+    ONCE.call_once(|| {
+        let default = std::panic::take_hook();
+        std::panic::set_hook(Box::new(move |info| {
+            let loc = info.location().map(|l| format!("{}:{}", l.file(), l.line())).unwrap_or_default();
+            let msg = if let Some(s) = info.payload().downcast_ref::<&str>() {
+                s.to_string()
+            } else if let Some(s) = info.payload().downcast_ref::<String>() {
+                s.clone()
+            } else {
+                "panic".to_string()
+            };
+            LAST_PANIC.with(|p| *p.borrow_mut() = Some((loc.clone(), msg)));
+            let in_crate = loc.starts_with("/repo/") || loc.starts_with("src/") && !loc.contains("props/") && !loc.contains("rig/") && !loc.contains("peer/");
+            if !IN_PROBE.with(|p| p.get()) && !loc.starts_with("/repo/") {
+                let _ = in_crate;
+                default(info);
+            }
+        }));
+    });
+}
+
+/// Runs one scenario. A panic raised *inside the crate under test* (source location under
+/// /repo/) becomes a violation `<property>:panic-in-crate`; any other panic is a harness bug and
+/// is propagated (the shard dies, the check is inconclusive).
+pub fn guarded(rep: &mut Report, seed: u64, f: impl FnOnce(&mut Report)) {
+    quiet_panics_inside_probes();
+    LAST_PANIC.with(|p| *p.borrow_mut() = None);
+    let r = std::panic::catch_unwind(std::panic::AssertUnwindSafe(|| f(rep)));
+    if let Err(payload) = r {
+        let last = LAST_PANIC.with(|p| p.borrow().clone());
+        match last {
+            Some((loc, msg)) if loc.starts_with("/repo/") => {
+                let prop = rep.property.clone();
+                rep.evaluations += 1;
+                rep.violation(
+                    &format!("{prop}:panic-in-crate"),
+                    format!("the code under test panicked at {loc}: {msg}"),
+                    serde_json::json!({"scenario_seed": seed.to_string(), "location": loc, "message": msg}),
+                );
+            }
+            _ => std::panic::resume_unwind(payload),
         }
-    }));
+    }
 }
 
 /// Runs `f`, converting a panic into `Err(())`.
